@@ -4,6 +4,7 @@ import persist_common as pc
 SHRINKABLE = True
 MODEL = "persist"
 model_lines = pc.model_lines
+neighbourhood = pc.neighbourhood
 PROP = "C06"
 RULE = ("same font/history generator as C01 restricted to in-place saves (after a first save-as for memory-built fonts), "
         "saves weighted up; after each save: ufoLib read-back == shadow content, no orphan files (glif not in contents.plist, "
